@@ -321,6 +321,10 @@ func nearDuplicateCase(c *mon.Ctx, idx int64, r *rand.Rand) {
 		{"pcr-earlier-across-the-wrap", true, false, 0, withPCR, stuff(append([]byte{0x10}, pcr(uint64(r.IntN(4)), 0)...))},
 		{"opcr-other", true, false, 0, withBoth, stuff(append(append([]byte{0x18}, pcr(base+1, 18)...), pcr(base/2+9, 4)...))},
 		{"no-clock", true, false, 0, stuff([]byte{0x40}), stuff([]byte{0x40})},
+		// true duplicates whose adaptation field carries an extension (seamless splice with DTS_next_AU; legal time window and
+		// piecewise rate) and private data: the comparison that recognises them must leave the packet it is compared with as it was
+		{"identical-with-seamless-splice", true, false, 0, stuff([]byte{0x01, 0x06, 0x3f, 0x11, 0x00, 0x01, 0x00, 0x01}), stuff([]byte{0x01, 0x06, 0x3f, 0x11, 0x00, 0x01, 0x00, 0x01})},
+		{"identical-with-ltw-piecewise-private", true, false, 0, stuff([]byte{0x03, 0x02, 0x5a, 0x02, 0x06, 0xdf, 0x81, 0x02, 0xc0, 0x10, 0x00}), stuff([]byte{0x03, 0x02, 0x5a, 0x02, 0x06, 0xdf, 0x81, 0x02, 0xc0, 0x10, 0x00})},
 		{"priority", false, true, 0, withPCR, withPCR},
 		{"scrambling", false, false, 2, withPCR, withPCR},
 		{"random-access", false, false, 0, stuff([]byte{0x00}), stuff([]byte{0x40})},
